@@ -17,15 +17,30 @@ CHECKS = {
     "C02": dict(cat="model_checking", tech="TLA+ design model + TLC trace validation with measured residuals, reference-spectrum distance and duplicate detection",
                 text="Same machinery as C01 for GenEigsSolver/GenEigsRealShiftSolver/GenEigsComplexShiftSolver: measured residual against the user's A, unit norm, distance to the long-double reference spectrum of A (eigenvalues reported in A's spectrum), no duplicated eigenpair, flags fresh at return; histories include second runs on the complex-shift solver.",
                 ref="6 C02"),
+    "C03": dict(cat="model_checking", tech="TLA+ design model + TLC trace validation of the five generalized modes with measured pencil residual and B-orthonormality",
+                text="SymGEigsSolver (Cholesky, RegularInverse) and SymGEigsShiftSolver (ShiftInvert, Buckling, Cayley) in every A/B storage pairing and triangle option (unused triangles poisoned), condition numbers of B up to 2^20: every flagged pair is judged at every num_converged in the iterated operator and at return against the user's pencil (||Ax - lambda Bx||, B-norm, B-orthonormality), with the same history/freshness model as C01.",
+                ref="6 C03"),
+    "C04": dict(cat="model_checking", tech="exact rational oracle in TLA+ (Transform.tla) for the wanted set of the transformed spectrum, checked on recorded runs with prescribed integer spectra",
+                text="Matrices/pencils with prescribed (Gaussian-)integer spectra; on every Successful return TLC computes nu = 1/(l-s), l/(l-s), (l+s)/(l-s), d/(d^2+s^2) as exact fractions, ranks them by the rule (cross-multiplication, BothEnds split) and requires the returned index set to be the wanted set; ambiguous/insufficiently separated cases are skipped and counted. The documented meaning of the rules in shift modes is itself model-checked (MC_Transform).",
+                ref="6 C04"),
     "C05": dict(cat="model_checking", tech="TLA+ design model + exact TLC trace validation of public observations against hook events",
                 text="Counts/status/ordering/counter clauses are decided exactly: the design model proves the counter and status relations for all histories; trace validation checks on every recorded call that return value = accessor sizes <= nev, status iff all, eigenvectors(m) prefix, ordering by the sorting rule (integer ranks of the library's own keys), num_operations = true applications (counting wrapper, probe solves separated), restarts <= maxit, NotComputed before compute.",
                 ref="6 C05"),
+    "C06": dict(cat="model_checking", tech="digest equality across TLC-validated call histories + design invariant InitMakesFresh",
+                text="For every history over {init, init(v1), init(v2), compute(a|b|bad rule), init(0), new object} up to length 3 (sampled in quick, exhaustive for three classes in thorough) the digest of all public results and counters of 'init(v); compute(args)' equals that of a fresh object; the operator is probed before and after every run (shift still in force). The design model proves init() restores the post-init state after every history with faults.",
+                ref="6 C06"),
     "C07": dict(cat="model_checking", tech="TLC trace validation of per-step Krylov measurements (A V = V H + f e', V'BV = I, V'Bf = 0, shape, advertised k) against Krylov actions of the spec",
                 text="At FacInit, every FacStep, FacDone, CompressV of every recorded solver run the harness measures the three identities in long double with its own copy of the operator; the trace spec tracks k through compress_H/compress_V and judges the measurements (bound grows with the number of restarts), the Hessenberg/tridiagonal shape and the advertised dimension.",
                 ref="6 C07"),
+    "C12": dict(cat="model_checking", tech="exhaustive argument tables of the real constructors/init/compute checked row by row by TLC against ArgCheck.tla",
+                text="12 solver classes x n in 1..12 x (nev, ncv) in [-2, n+3]^2, SVD shapes up to 6x6, square-only wrappers for every shape up to 4x4, sigma = 0 in buckling/Cayley, zero start vector, nine rules x {selection, sorting} x maxit in {0,1,30} x seven classes: outcome must be accept / std::invalid_argument exactly as documented, rejected constructions leave no live heap block, the object is usable after a rejected compute().",
+                ref="6 C12"),
     "C13": dict(cat="model_checking", tech="TLA+ design model with liveness + exhaustive token-pattern model of nev_adjusted/shift loop + TLC validation of degenerate-input runs with heap canaries",
                 text="IRSolver.tla: work bound, restart bound, dimension/shift-index ranges and termination (liveness under fairness) for all histories; NevAdjust.tla: restart size in range and every shift-loop index read in range for ALL token arrangements (ncv<=7) with a negative control; recorded runs on zero/identity/nilpotent/rank-deficient/permutation/orthogonal/skew/tied inputs, scalings 2^-26..2^26, extreme (nev,ncv), maxit from 0: no abort/assertion, documented outcome, finite results, valid operator arguments, heap canaries intact, work bound.",
                 ref="6 C13"),
+    "C14": dict(cat="model_checking", tech="fault enumeration at every operator application index, traces validated by TLC (OpThrows action), digest equality with the fault-free baseline",
+                text="For six solver classes the wrapper throws a tagged exception at application k for k over the fault-free run's applications (every 3rd/7th in quick, all and pairs in thorough): the same exception reaches the caller, the event prefix is a behaviour of the spec with OpThrows, and init(); compute() afterwards reproduces the fault-free digest; repeated identical executions leave the same number of live heap blocks.",
+                ref="6 C14"),
     "C18": dict(cat="model_checking", tech="exhaustive table of the real argsort/SortEigenvalue checked row by row by TLC against SelectionRule.tla (relation, not transcription)",
                 text="Every vector of length 0..7 over the tie-rich alphabets x 9 rules x {argsort, SortEigenvalue<real>, SortEigenvalue<complex>}: permutation, ordered by the rule's exact integer key, BothEnds prefix property for every k, rejection of undefined rules; plus random long vectors. The oracle's satisfiability is model-checked.",
                 ref="6 C18"),
